@@ -18,5 +18,6 @@ MOV = ("Gen/Mov", "Mov")
 TAGCHARS = ("Oracle/TagChars", "TagChars")
 # C13: constant types of operand/zconst.go + const.go (format verbs, Bytes)
 CONSTS = ("Gen/Consts", "Consts")
+MAPRANGES = ("Gen/MapRanges", "MapRanges")
 
-ALL_MODULES = [TEXTFLAGS, TEXTFLAGH, REGS, REGHW] + forms_modules() + ctors_modules() + [MOV, TAGCHARS, CONSTS]
+ALL_MODULES = [MAPRANGES, TEXTFLAGS, TEXTFLAGH, REGS, REGHW] + forms_modules() + ctors_modules() + [MOV, TAGCHARS, CONSTS]
